@@ -225,6 +225,8 @@ func peerNameOf(addr string) string {
 		return "P1"
 	case remIP2:
 		return "P2"
+	case "10.0.0.4":
+		return "P3"
 	}
 	return addr
 }
